@@ -261,16 +261,27 @@ def build(src):
         raise ExtractionError("for_each_option no longer visits options, multi-options, toggles in this order: %r" % kinds)
     KINDS = [("opts", "n_opts", "option"), ("mopts", "n_mopts", "multi"), ("toggles", "n_toggles", "toggle")]
 
+    # scalar data members of class parser that the model does not name (e.g. a cached flag added later): carried as extra fields
+    pcls = src.text("include/nitro/options/parser.hpp")
+    known = {"allowed_positionals_", "greedy_positionals_"}
+    extra = [(t, n) for t, n in re.findall(r"^\s*(bool|int|unsigned|std::size_t|size_t)\s+(\w+_)\s*(?:=[^;]*)?;", pcls, re.M) if n not in known]
+    if extra:
+        u.extra_members["oparser"] = " ".join("%s %s;" % ({"bool": "nbool", "std::size_t": "size_t"}.get(t, t), n) for t, n in extra)
+        u.static_facts.append("class parser has scalar data members outside the model, carried as unconstrained fields: " + ", ".join(n for _, n in extra))
+    extra_rule = [Rule("D3.members", r"(?<![\w.>])(%s)\b" % "|".join(n for _, n in extra), r"self->\1")] if extra else []
+    u.rules = u.rules + extra_rule
+
     def splice(fname, lam_re, per_kind):
+        # the for_each_option(lambda) call is spliced per kind where it stands; whatever else the body holds is taken as it comes
         d = src.find(PAR, fname)
         body = re.sub(r"\s+", " ", d["body"]).strip()
-        mm = re.match(lam_re, body)
+        mm = re.search(lam_re.lstrip("^").rstrip("$"), body)
         if not mm:
-            raise ExtractionError("%s: body is no longer one for_each_option(lambda) call: %s" % (fname, body[:100]))
+            raise ExtractionError("%s: no for_each_option(lambda) call of the expected form in: %s" % (fname, body[:100]))
         out = []
         for arr, n, kind in KINDS:
             out.append("    for (size_t k_ = 0; k_ < self->%s; ++k_)\n    { %s }\n" % (n, per_kind(mm, arr, kind)))
-        return "\n" + "".join(out)
+        return "\n" + body[:mm.start()] + "\n" + "".join(out) + body[mm.end():] + "\n"
     for fn, member in [("prepare_options", "prepare"), ("validate_options", "check")]:
         text = splice(r"void parser::%s\(\)" % fn, r"^for_each_option\(\[\]\(auto& arg\) \{ arg\.%s\(\); \}\);$" % member,
                       lambda mm, arr, kind, member=member: "%s_%s(&self->%s[k_]);%s" % (kind, member, arr, " NITRO_PROPAGATE;" if member == "check" else ""))
